@@ -378,6 +378,7 @@ def run(prop, tier, seed, update_lock=False, verbose=False):
             continue
         kf = match_known(open_known, ex.name, ex.replay or {})
         if kf is not None:
+            ex.known = True
             msg = f"KNOWN-FINDING: property={prop} {kf['what']}"
             if msg not in result["known_printed"]:
                 result["known_printed"].append(msg)
@@ -453,7 +454,9 @@ def finish(prop, tier, seed, t0, uni, reports, by_name, extras, result, mod,
         else:
             exit_code = 0
     level = getattr(mod, "LEVEL", "proof")
-    ex_count = sum(e.count for e in extras)
+    # obligations matched by a recorded known finding are reported under
+    # known_findings_printed, not counted as (undischarged) obligations
+    ex_count = sum(e.count for e in extras if not getattr(e, "known", False))
     ex_ok = sum(e.count for e in extras if e.ok)
     bounded = [e.name for e in extras if e.bounded] + \
         [r.contract.name for r in reports if r.bounded]
@@ -497,6 +500,8 @@ def finish(prop, tier, seed, t0, uni, reports, by_name, extras, result, mod,
                 "or extra check; instances are per symbolic path",
         "explanation": getattr(mod, "EXPLANATION", ""),
         "known_findings_printed": result["known_printed"],
+        "known_finding_obligations": [e.name for e in extras
+                                      if getattr(e, "known", False)],
         "undecided": result["undecided"],
     }
     ev = {"property_id": prop, "tier": tier, "seed": seed, "level": level,
